@@ -14,7 +14,7 @@ MANIFEST = {
     "category": "proof",
     "technique": "contract-based deductive verification: the real ConvContract.__init__ / individual_convolve / __call__ executed with symbolic channel counts, weights, biases, inputs and an arbitrary (opaque) filter bank; individual_convolve against the defining sum built from conv_spec + contraction; __call__ modularly against the callee contract of individual_convolve for all five bias settings; z3 with BigSum congruence",
     "text": "individual_convolve: for every enumerated signature pair and option set, with symbolic channel counts, symbolic numbers of filters per type, opaque weights / filters / inputs and all image extents, block t of the result equals sum over input types s (with an available filter) of the contraction over the input's tensor indices of conv_spec(x_s, sum_f W_st[.,.,f] F_f^(k_s+k_t, p_s+p_t)), with the spatial shape of the size formula. __call__: for 'auto', 'mean', 'scalar', True, False the output holds exactly the reachable target types, in target order, each Z[t] + b[t] (true scalars, additive modes), Z[t] + mean_spatial(Z[t])*b[t] (mean modes) or Z[t]; nothing reachable is dropped, nothing non-scalar gets an additive constant. __init__: weight / bias shapes for exactly the reachable pairs, missing_filter, bias-mode normalisation.",
-    "note": "relies on C04's assumed library contracts; signatures enumerated (<= 3 types from {(k,p): k<=2} quick k<=1); filter banks are opaque arrays (the statement does not depend on invariance); reals not floats; fast_convolve is dead code (fast_mode is forced False) and is not under contract",
+    "note": "relies on C04's assumed library contracts; signatures enumerated (<= 3 types from {(k,p): k<=2} quick k<=1); filter banks are opaque arrays (the statement does not depend on invariance); reals not floats; fast_convolve is dead code on the pinned tree (fast_mode is forced False); the public entry point __call__ is verified for fresh and pytree-round-tripped layers with equal channel counts, so whichever internal path it takes is compared with the defining sum",
 }
 FUNCTIONS = ["ml.layers.ConvContract.__init__", "ml.layers.ConvContract.individual_convolve", "ml.layers.ConvContract.__call__",
              "functional_geometric_image.convolve_contract", "functional_geometric_image.convolve", "MultiImage.append/empty/items"]
@@ -45,6 +45,12 @@ def jobs(tier):
                 if q and oi > 0 and (si, so) != sigs[0]:
                     continue
                 out.append(("gvc.props.c11", "ob_defining_sum", dict(D=D, sin=si, sout=so, opt=o)))
+        # layers that have been through a pytree round trip (jit, an optimiser step, load), equal channel counts, targets listed in
+        # non-sorted order, through the public entry point
+        for (si, so) in [([(0, 0), (1, 0)], [(1, 0), (0, 0)]), ([(1, 0)], [(1, 0), (0, 0)])] + ([] if q else [([(0, 0), (1, 0)], [(0, 0), (1, 0), (0, 1)])]):
+            for eqc in [True, False]:
+                out.append(("gvc.props.c11", "ob_defining_sum", dict(D=D, sin=si, sout=so, opt=opts[0], history="pytree", eqc=eqc, entry="__call__")))
+        out.append(("gvc.props.c11", "ob_defining_sum", dict(D=D, sin=sigs[0][0], sout=sigs[0][1], opt=opts[0], history="fresh", eqc=True, entry="__call__")))
         for ub in ["auto", "mean", "scalar", True, False]:
             for (si, so) in [([(0, 0), (1, 0)], [(1, 0), (0, 1), (0, 0)]), ([(1, 0)], [(0, 1), (1, 1)]), ([(0, 0)], [(0, 1), (0, 0), (1, 0)])]:
                 out.append(("gvc.props.c11", "ob_call", dict(D=D, sin=si, sout=so, use_bias=ub)))
@@ -63,8 +69,12 @@ def _bank(G, D, W, types, M=3):
     return G.MultiImage(blocks, D, True), blocks, nf
 
 
-def _sig(G, keys, W, tag):
-    ch = {k: Atom(sint(f"{tag}{k[0]}{k[1]}", W.pre), f"{tag}{k[0]}{k[1]}") for k in keys}
+def _sig(G, keys, W, tag, equal=False):
+    if equal:        # one channel count shared by all types (the configuration the layer's single-convolution path is meant for)
+        c = Atom(sint(f"{tag}", W.pre), f"{tag}")
+        ch = {k: c for k in keys}
+    else:
+        ch = {k: Atom(sint(f"{tag}{k[0]}{k[1]}", W.pre), f"{tag}{k[0]}{k[1]}") for k in keys}
     return G.Signature(tuple((k, ch[k].ext) for k in keys)), ch
 
 
@@ -72,7 +82,10 @@ def _fmt(v):
     return "[" + " ".join(f"{a}{b}" for a, b in v) + "]"
 
 
-def ob_defining_sum(D, sin, sout, opt):
+def ob_defining_sum(D, sin, sout, opt, history="fresh", eqc=False, entry="individual_convolve"):
+    """history='pytree': the layer has been flattened and rebuilt as a pytree before the call (what jit / an optimiser step / load
+    do to every layer: dict-valued fields come back in sorted key order, static fields as they were); entry='__call__': the
+    public entry point with use_bias=False, whichever internal path it takes"""
     G, Lm = geom(), L()
     arr.ENUM_SMALL[0] = 3
     W = World(D)
@@ -80,8 +93,8 @@ def ob_defining_sum(D, sin, sout, opt):
     ftypes = sorted(({(a[0] + b[0], (a[1] + b[1]) % 2) for a in sin for b in sout} | {(a[0] + b[0], 1 - (a[1] + b[1]) % 2) for a in sin for b in sout})
                     - {(0, 1)})   # both parities of every reachable order, but no pseudoscalar filters (as for M=3)
     bank, fblocks, nf = _bank(G, D, W, ftypes)
-    isig, ich = _sig(G, sin, W, "ci")
-    osig, och = _sig(G, sout, W, "co")
+    isig, ich = _sig(G, sin, W, "ci", eqc)
+    osig, och = _sig(G, sout, W, "co", eqc)
     rd = opt["rdil"]
     for d in range(D):
         W.pre.append(zi(W.spatial[d].ext) >= rd * 2 + 1)
@@ -97,17 +110,24 @@ def ob_defining_sum(D, sin, sout, opt):
 
     def run():
         layer = Lm.ConvContract(isig, osig, bank, False, opt["stride"], pd, ld, rd, key=("key", 0))
+        if history == "pytree":
+            leaves, rebuild = lib.tree_flatten_obj(layer)
+            layer = rebuild(leaves)
         x = G.MultiImage(dict(X), D, flags)
+        if entry == "__call__":
+            return layer, layer(x)
         return layer, layer.individual_convolve(x, layer.weights)
 
     def post(res):
         layer, out = res
         spec, order = {}, []
-        for s in sin:                       # emission order of individual_convolve: first reached
+        for s in (sin if entry != "__call__" else []):      # emission order of individual_convolve: first reached
             for t in sout:
                 fk = (s[0] + t[0], (s[1] + t[1]) % 2)
                 if fk in fblocks and t not in order:
                     order.append(t)
+        if entry == "__call__":             # the public entry point: reachable target types in target order
+            order = [t for t in sout if any((s[0] + t[0], (s[1] + t[1]) % 2) in fblocks for s in sin)]
         for t in sout:
             total = None
             for s in sin:
@@ -134,9 +154,12 @@ def ob_defining_sum(D, sin, sout, opt):
                 spec[t] = total
         return cmp_blocks(out, spec, D, flags, order, "individual_convolve")
 
-    name = f"C11/ConvContract.individual_convolve/D={D},in={_fmt(sin)},out={_fmt(sout)},opt={opt['padding']}/{opt['rdil']}/{opt['ldil']}/{opt['stride']}"
+    name = f"C11/ConvContract.{entry}/D={D},in={_fmt(sin)},out={_fmt(sout)},opt={opt['padding']}/{opt['rdil']}/{opt['ldil']}/{opt['stride']}"
+    if history != "fresh" or eqc:
+        name += f",history={history},equal_channels={eqc}"
+        structure.update(history=history, equal_channels=eqc, entry=entry)
     o = guard(name + "/ensures:defining-sum", "ensures", lambda: all_paths(W.pre, run, post), structure)
-    o["replay"] = dict(scenario="layer", model=o.get("model"), D=D, sin=sin, sout=sout, opt=opt, use_bias=False)
+    o["replay"] = dict(scenario="layer", model=o.get("model"), D=D, sin=sin, sout=sout, opt=opt, use_bias=False, history=history, equal_channels=eqc)
     return [o, cover(name + "/cover:pre", W.pre, structure)]
 
 
